@@ -214,19 +214,30 @@ impl RunCtx {
         {
             let wd = wd.clone();
             let prop = prop.to_string();
+            let parent = std::os::unix::process::parent_id();
             std::thread::spawn(move || loop {
                 std::thread::sleep(std::time::Duration::from_millis(500));
+                // a process whose parent went away (a child shard of a check that has ended, or a
+                // check whose caller was killed) must not linger
+                if std::os::unix::process::parent_id() != parent {
+                    std::process::exit(3);
+                }
                 let now = wd.epoch.elapsed().as_millis() as u64;
                 for (i, s) in wd.slots.iter().enumerate() {
                     let st = s.load(Ordering::Relaxed);
                     if st != 0 && now > st + wd.limit_ms {
                         let d = wd.descr.lock().map(|d| d[i].clone()).unwrap_or_default();
-                        println!(
+                        // never `println!` here: a closed pipe would panic this thread and the
+                        // process would hang for ever
+                        use std::io::Write;
+                        let _ = writeln!(
+                            std::io::stdout(),
                             "INCONCLUSIVE property={} a case exceeded the {} s watchdog (not a violation): {}",
                             prop,
                             wd.limit_ms / 1000,
                             d
                         );
+                        let _ = std::io::stdout().flush();
                         std::process::exit(2);
                     }
                 }
